@@ -56,7 +56,32 @@ def generate(rng, tier="quick"):
         nodes.append(nd)
         lives.append(gen.gen_lifecycle(rng, i, 2, rng.choice([0.0, 0.5, 0.8])) + [gen_craft(rng, i, cls, idx + i, gspec)])
     steps = gen.interleave(rng, lives)
-    return {"property": PROP, "config": {"psets": [pspec], "nodes": nodes}, "steps": steps}
+    for st in steps:
+        if st["op"] == "craft" and rng.random() < 0.1:
+            st["as"] = rng.choice(["bytearray", "bytearray", "memoryview"])   # a buffer, not a bytes object
+    cfg = {"psets": [pspec], "nodes": nodes}
+    if rng.random() < 0.1 and gspec["kind"] in gen.CHEAP_TO_REIMPORT and len(nodes) >= 2:
+        # process restart variant: two sessions of one class and password under two parameter sets
+        # over the SAME group object live in one process, it restarts, the second is restored and
+        # is then shown the message it sent before the restart
+        ps2 = dict(pspec)
+        for k in ("M", "N", "S"):
+            ps2[k] = gen.gen_bytes(rng, rng.choice(["one", "short", "ascii"])).hex()
+        if gen.usable_pspec(ps2):
+            cfg["psets"].append(ps2)
+            cfg["fresh_hosts"] = True
+            nodes[1].update({"cls": nodes[0]["cls"], "pw": nodes[0]["pw"], "pset": 1})
+            for k in ("idA", "idB", "idS"):
+                nodes[1].pop(k, None)
+                if k in nodes[0]:
+                    nodes[1][k] = nodes[0][k]
+            del nodes[2:]
+            cls = nodes[0]["cls"]
+            steps = [{"op": "boot", "n": 0}, {"op": "start", "n": 0}, {"op": "boot", "n": 1}, {"op": "start", "n": 1},
+                     {"op": "persist", "n": 0}, {"op": "persist", "n": 1}, {"op": "reboot", "host": 0},
+                     {"op": "recover", "n": 1},
+                     {"op": "craft", "dst": 1, "label": ACCEPT[cls], "body": {"kind": "own"}}]
+    return {"property": PROP, "config": cfg, "steps": steps}
 
 
 def resolve_variant(world, body, dst):
@@ -94,6 +119,7 @@ class Oracle(Hooks):
         if any(c[0] == "finish" for c in n.calls[:-1]):
             return
         wire = ev["wire"]
+        buffer_typed = bool(step.get("as"))     # not a bytes object: any refusal is fine, a key is not
         cls = n.cur_cls
         gk = group_kind(w, n.cur_pset)
         state = "restored" if n.restores else "fresh"
@@ -130,7 +156,7 @@ class Oracle(Hooks):
                 self.flag(w, "key-for-wrong-side", "finish() of %s returned a key for a message labelled %r"
                           % (cls, label), cls=cls, lclass=lclass, state=state)
                 return
-            if offsides_required:
+            if offsides_required and not buffer_typed:
                 w.probe("offsides-required")
                 if exc != "OffSides":
                     self.flag(w, "offsides-not-raised", "%s given a %r-labelled message raised %s, not OffSides"
@@ -148,7 +174,7 @@ class Oracle(Hooks):
             if got_key:
                 self.flag(w, "key-for-reflection", "finish() returned a key for the instance's own element",
                           cls=cls, state=state, family=g.kind)
-            elif exc != "ReflectionThwarted":
+            elif exc != "ReflectionThwarted" and not buffer_typed:
                 # Edwards identity: the decoder refuses it before the reflection test; still no key
                 if g.rejects_identity and body == g.enc(g.identity):
                     w.probe("reflected-identity")
